@@ -167,17 +167,39 @@ class Decl:
         self.values = []
         self.special = False
         self.with_method = False      # method-less classes get their to_json/from_json like models (repaired finding)
+        self.chain = None             # class hierarchy: [(class name, own fields, has_method)] root first, the last is this class
 
     def src(self):
         s = ""
+        own = self.fields
+        ext = ""
+        if self.chain:
+            # ancestors are plain classes; `self.fields` is the documented order: root first, own fields last
+            for i, (cn, cf, meth) in enumerate(self.chain[:-1]):
+                s += "class %s%s:\n" % (cn, " extends %s" % self.chain[i - 1][0] if i else "")
+                for f, t in cf:
+                    s += "    %s: %s\n" % (f, ity(t))
+                if meth or not cf:
+                    s += "\n    def nm_%s(self) -> int:\n        return %d\n" % (cn, i)
+                s += "\n"
+            own = self.chain[-1][1]
+            ext = " extends %s" % self.chain[-2][0] if len(self.chain) > 1 else ""
         if self.derives:
             s += "@derive(%s)\n" % ", ".join(self.derives)
-        s += "%s %s:\n" % (self.kind, self.name)
-        for f, t in self.fields:
+        s += "%s %s%s:\n" % (self.kind, self.name, ext)
+        for f, t in own:
             s += "    %s: %s\n" % (f, ity(t))
-        if self.kind == "class" and self.with_method:
+        if (self.kind == "class" and self.with_method) or not own:
             s += "\n    def nm(self) -> int:\n        return %d\n" % len(self.fields)
         return s
+
+    def gtable(self):
+        """the class table of this hierarchy as a Gallina term (classes numbered 1.. root first)"""
+        rows = []
+        for i, (cn, cf, _) in enumerate(self.chain):
+            parent = "(Some %d)" % i if i else "None"
+            rows.append("(pair %d (pair %s %s))" % (i + 1, parent, glist(["(pair %s %s)" % (gstr(f), gty(t)) for f, t in cf])))
+        return glist(rows), len(self.chain)
 
 
 def ity(t):
@@ -377,6 +399,49 @@ def gen_decls(rng, n, tag):
             d.fields.append((fn, gen_type(rng, caps, decls, depth)))
         decls.append(d)
     return decls
+
+
+ORD_SETS = [["Serialize", "Deserialize", "Eq", "Ord", "Hash"], ["Ord", "Serialize", "Deserialize"],
+            ["Debug", "Clone", "Serialize", "Deserialize", "PartialEq", "PartialOrd"], ["PartialOrd", "Serialize", "Deserialize"],
+            ["Eq", "Ord", "Hash"], ["Serialize", "Deserialize", "Eq"]]
+
+
+def gen_hierarchy(rng, name, depth, decls, names_pool, light=False):
+    """a class with `depth` levels (depth - 1 ancestors); every level declares 0-3 fields (at least two levels declare some);
+    derives sit on the leaf. d.fields is the documented declaration order (root first)."""
+    derives = list(rng.choice(ORD_SETS[:5] if rng.random() < 0.85 else ORD_SETS))
+    caps = caps_of(derives)
+    d = Decl(name, "class", derives, [], caps)
+    d.special = True
+    d.with_method = rng.random() < 0.5
+    counts = [rng.choice([1, 1, 2, 3]) for _ in range(depth)]
+    if depth >= 3 and rng.random() < 0.3:
+        counts[rng.randrange(1, depth - 1)] = 0          # a level that only adds a method
+    total = sum(counts)
+    fnames = rng.sample(names_pool, total)
+    chain, k = [], 0
+    for lvl in range(depth):
+        cf = []
+        for _ in range(counts[lvl]):
+            t = gen_type(rng, caps, decls, 0 if (light or rng.random() < 0.6) else 1, allow_dict=False)
+            cf.append((fnames[k], t))
+            k += 1
+        cn = name if lvl == depth - 1 else "%sA%d" % (name, lvl)
+        chain.append((cn, cf, rng.random() < 0.4))
+    d.chain = chain
+    d.fields = [f for _, cf, _ in chain for f in cf]
+    return d
+
+
+def hierarchy_values(rng, d):
+    """base value, an equal copy, and for every declared field one value that differs from the base in exactly that
+    field: for two such values the FIRST differing declared field (ancestors first) must decide the comparison"""
+    t = ("struct", d)
+    v0 = gen_value(rng, t)
+    vals = [v0, json_copy(v0)]
+    for i in range(len(d.fields)):
+        vals.append(mutate_field(rng, d, v0, i))
+    return vals
 
 
 def special_decls(tag):
@@ -857,6 +922,66 @@ def compile_and_run(binary, scratch, name, src):
 HEADER = re.compile(r"^#([JTRFPHC]) ")
 
 
+def emitted_fields(binary, scratch, name, src):
+    """struct name -> emitted field names in order, from the real pipeline's Rust text"""
+    sp = os.path.join(scratch, name + "_fields.incn")
+    with open(sp, "w", encoding="utf-8") as f:
+        f.write(src)
+    out = vlib.run_harness(binary, ["run", "c20", "fields"], sp + "\n").strip()
+    if not out.startswith("OK"):
+        return None, out
+    res = {}
+    for part in out[3:].split(";"):
+        if ":" in part:
+            n, fs = part.split(":", 1)
+            res[n] = [x for x in fs.split(",") if x]
+    return res, out
+
+
+def check_field_order(chk, binary, scratch, name, decls, src, res, model_ok):
+    """tie (c): emitted struct field order vs the documented order (Python) and vs the Coq model of lower_class"""
+    fails, corr = [], []
+    emitted, raw = emitted_fields(binary, scratch, name, src)
+    if emitted is None:
+        return [{"batch": name, "stage": "pipeline", "message": raw, "program": src,
+                 "why": "the compiler pipeline rejects the generated declarations"}], []
+    hier = [d for d in decls if d.chain]
+    model = {}
+    if model_ok and hier:
+        req = "From Verif Require Import Base.I64 C20.Model.\nFrom Coq Require Import ZArith List.\nImport ListNotations.\nOpen Scope Z_scope."
+        terms = []
+        for d in hier:
+            tbl, n = d.gtable()
+            terms.append("run_class_fields %s %d" % (tbl, n))
+        vals = vlib.coq_eval(req, "list Z", "fun x => x", terms, shard=64, tag="c20f" + name, extra_defs=EVAL_DEFS)
+        for d, v in zip(hier, vals):
+            names, cur = [], []
+            for z in v:
+                if z == -1:
+                    names.append("".join(map(chr, cur)))
+                    cur = []
+                else:
+                    cur.append(z)
+            model[d.name] = names
+    for d in decls:
+        got = emitted.get(d.name)
+        want = [f for f, _ in d.fields]
+        chk.count_case(("fields", name, d.name, tuple(got or ())), nontrivial=bool(d.chain))
+        res["dist"]["fields"] = res["dist"].get("fields", 0) + 1
+        if d.chain:
+            res["dist"]["hierarchy_depth_%d" % len(d.chain)] = res["dist"].get("hierarchy_depth_%d" % len(d.chain), 0) + 1
+        case = {"batch": name, "record": "fields %s" % d.name, "decl": d.src(), "impl": got}
+        if got != want:
+            case["why"] = ("emitted struct field order %s differs from the declaration order %s (ancestors' fields root first, own fields "
+                           "last): derived ordering and the JSON keys follow the emitted order" % (got, want))
+            fails.append(case)
+        if d.name in model and model[d.name] != got:
+            c2 = dict(case)
+            c2["mismatch"] = {"model": model[d.name], "impl": got}
+            corr.append(c2)
+    return fails, corr
+
+
 def parse_output(stdout, plan):
     """group the payload lines under their `#TAG ...` header lines; a group with an unexpected number of lines
     (e.g. multi-line JSON) is kept as it is and judged as a failing record, only a wrong sequence of headers is
@@ -882,6 +1007,7 @@ def flags(xs):
 def run_batch(chk, binary, scratch, name, decls, ftexts, res, model_ok):
     """one program: build, run, compare with model and oracle. Returns list of failure dicts."""
     src, plan = build_program(decls, ftexts)
+    ffails, fcorr = check_field_order(chk, binary, scratch, name, decls, src, res, model_ok)
     t3 = time.time()
     status, out = compile_and_run(binary, scratch, name, src)
     vlib.log("[c20] batch %s generated, built and run in %.1fs (%d records)" % (name, time.time() - t3, len(plan)))
@@ -891,7 +1017,8 @@ def run_batch(chk, binary, scratch, name, decls, ftexts, res, model_ok):
         if status == "rustc" and not DERIVE_ERR.search(out):
             raise vlib.Infra("generated batch %s does not build for a reason outside C20:\n%s" % (name, out[-3000:]))
         detail["why"] = "a generated program of derived models/classes that builds on the verified tree no longer builds/runs"
-        return [detail], [], 0
+        return ffails + [detail], fcorr, 0
+    fails, corr = list(ffails), list(fcorr)
     recs = parse_output(out, plan)
     # ---- model terms
     terms, idx = [], []
@@ -1125,7 +1252,7 @@ def run(chk):
     chk.assumptions = [
         "float fields are outside every theorem (TFloat has no well-typed value); finite floats are covered by execution only, NaN/inf not at all",
         "HashMap iteration order is an oracle: the model prints dict entries in the order observed in the implementation's output",
-        "enums, newtypes, generics, field defaults and inheritance are not generated",
+        "class hierarchies (extends, depth 1-5, fields at several levels, derives on the leaf) are generated; enums, newtypes, generics, traits and field defaults are not",
     ]
     tb = time.time()
     binary = vlib.build_harness("debug")
@@ -1211,6 +1338,12 @@ def run(chk):
                 v0 = gen_value(chk.rng, t)
                 d.values = [v0, json_copy(v0), mutate_field(chk.rng, d, v0, len(d.fields) - 1), mutate_field(chk.rng, d, v0, 0),
                             gen_value(chk.rng, t), gen_value(chk.rng, t)]
+            nh = 2 if chk.tier == "quick" else 4
+            for hi in range(nh):
+                depth = [3, 4, 2, 1][hi % 4] if chk.tier == "quick" else chk.rng.choice([1, 2, 3, 3, 4])
+                h = gen_hierarchy(chk.rng, "%sH%d" % (tag, hi), depth, decls[:ndecl], FIELD_NAMES)
+                h.values = hierarchy_values(chk.rng, h)[:10]
+                decls.append(h)
             decls += special_decls(tag)
             ftexts = {d.name: gen_ftexts(chk.rng, d, chk.tier == "quick") for d in decls if "Deserialize" in d.caps and not has_float(("struct", d))}
             name = "c20_%s%s" % (tag.lower(), suffix)
@@ -1221,6 +1354,16 @@ def run(chk):
             if bi == 0:
                 for d in decls[:2]:
                     chk.sample(d.src() + "# value: " + repr(d.values[0])[:300])
+        # declarations-only sweep: many hierarchies of depth 1-5 through the real pipeline (no cargo), field order only
+        nsw = 16 if chk.tier == "quick" else 80
+        sweep = []
+        for hi in range(nsw):
+            sweep.append(gen_hierarchy(chk.rng, "Sw%d" % hi, 1 + hi % 5, [], FIELD_NAMES, light=True))
+        ssrc = "\n".join(d.src() for d in sweep) + "\ndef main() -> None:\n    pass\n"
+        f, c = check_field_order(chk, binary, scratch, "c20_sweep", sweep, ssrc, res, model_ok)
+        fails += f
+        corr += c
+        n_model += len(sweep)
         vlib.log("[c20] batches done at %.1fs" % (time.time() - chk.t0))
         # ---- known findings: replay the witnesses on the real code
         for f in chk.findings:
@@ -1264,7 +1407,10 @@ def run(chk):
         shutil.rmtree(scratch, ignore_errors=True)
 
     chk.coverage["rule"] = ("all 2^13 decorator subsets x {model, class} through the real lowering+emitter (exhaustive); per batch: seeded random "
-                            "declarations (1-5 fields of int/bool/str/List/Dict[str,_]/Option/nested model, 9 derive sets, model|class) x 6 values "
+                            "declarations (1-5 fields of int/bool/str/List/Dict[str,_]/Option/nested model, 10 derive sets, model|class) x 6 values, plus class "
+                            "hierarchies (`extends`, 1-4 levels in the compiled batch, 1-5 in a declarations-only sweep; base value, equal copy and one "
+                            "single-field variant per declared field so that the first differing declared field decides) with record `fields` "
+                            "(emitted struct field order vs declaration order and vs the Coq model of lower_class) "
                             "(boundary pools: i64 extremes, empty/escape/control/astral strings, empty collections, None/Some; one equal copy, one "
                             "first-field and one last-field variant) -> records J (json_stringify), T (.to_json()), R (from_json round trip + ==), "
                             "F (from_json on hand-made texts: whitespace, \\u escapes, reordered/unknown/missing/duplicate fields, array form, "
@@ -1276,8 +1422,14 @@ def run(chk):
     chk.coverage["known_class_hits"] = {k: (v if isinstance(v, int) else len(v)) for k, v in list(res["known_hits"].items()) + list(known_rows.items())}
     chk.coverage["repaired_class_rows_checked"] = class_hits
 
-    fails.sort(key=lambda f: (0, len(f["record"])) if f.get("record", "").startswith(("table", "jsonmethods")) else (1, 0))
-    for f in fails[:20]:
+    fails.sort(key=lambda f: (0, len(f["record"])) if f.get("record", "").startswith(("table", "jsonmethods", "fields")) else (1, 0))
+    picked, per_kind = [], {}
+    for f in fails:                       # at most 4 per record kind, so that every affected observable shows up in the replay
+        k = f.get("record", "build").split(" ")[0]
+        per_kind[k] = per_kind.get(k, 0) + 1
+        if per_kind[k] <= 4:
+            picked.append(f)
+    for f in picked[:24]:
         chk.violation("failing-input", f)
     if not fails:
         if corr:
